@@ -12,6 +12,7 @@ the active tree of its block (0 for constraints that are not active).
 of `IncSolver::solve` stops on an unchanged cost); what holds is "quiescent ⇒ optimum".
 -/
 import AdaptaVerif.Lemmas.VpscKktOpt
+import AdaptaVerif.Lemmas.VpscKktFresh
 import AdaptaVerif.Lemmas.VpscFinal
 namespace AdaptaVerif.Props.C02Model
 open AdaptaVerif.Model.Vpsc
@@ -81,6 +82,48 @@ theorem quiescent_is_eps_optimum (eps : Rat) (heps : 0 ≤ eps) (st : St) (hinv 
   exact ⟨hk, fun y hy => kktEps_bound eps _ _ _ hWF hk y hy,
     fun xs lams hxs => kktEps_distance eps _ hWF xs lams hxs _ _ hk⟩
 
+/-! ### `dfdv_is_multiplier` -/
+
+open AdaptaVerif.Lemmas.VpscKktDfdv in
+/-- **dfdv_is_multiplier**: on a state satisfying the block invariant with blocks at their stationary
+    position, the tree recursion `compute_dfdv` started at any variable `v0` of a block (as
+    `Block::findMinLM` / `findMinLMBetween` do with `vars->front()`), if it does not run out of fuel,
+    (a) returns 0 for the root — the block as a whole is stationary —, (b) assigns to every active
+    constraint of the block exactly the tree multiplier `lamOf st j`, and (c) leaves every other entry
+    of `lm` unchanged (or sets it to its own tree multiplier).  By `tree_multipliers_stationary` these are
+    the multipliers that balance `2·w·(pos − desired)` at every variable of the block.
+    (All n, m, data, scales ≠ 0; `lm` any array with one entry per constraint.) -/
+theorem dfdv_is_multiplier (st : St) (hinv : Inv st) (hstat : BlockStationary st)
+    (hs : ∀ i : Nat, (st.vars[i]!).scale ≠ 0)
+    (bid fuel : Nat) (lm : Array Rat) (post : Array Nat) (v0 : Nat)
+    (hv0 : v0 < st.vars.size) (hb : blk st.vars v0 = bid) (hsz : lm.size = st.cons.size)
+    (hok : (computeDfdv st bid fuel lm post v0 none).2.2.2 = true) :
+    (computeDfdv st bid fuel lm post v0 none).2.2.1 = 0 ∧
+    (∀ j : Nat, j < st.cons.size → (st.cons[j]!).active = true → blk st.vars (st.cons[j]!).l = bid →
+      (computeDfdv st bid fuel lm post v0 none).1[j]! = lamOf st j) ∧
+    (∀ j : Nat, (computeDfdv st bid fuel lm post v0 none).1[j]! = lm[j]! ∨
+      ((st.cons[j]!).active = true ∧ (computeDfdv st bid fuel lm post v0 none).1[j]! = lamOf st j)) :=
+  dfdv_root hinv hstat hs bid fuel lm post v0 hv0 hb hsz hok
+
+open AdaptaVerif.Lemmas.VpscKktFresh in
+/-- **block position = (AD − AB)/A2 is the stationarity of the block as a whole**: a block whose record
+    holds the position `Block::updateWeightedPosition` computes from a member list enumerating exactly
+    the variables of the block satisfies `Σ_{x∈block} 2·w_x·(pos_x − d_x)/s_x = 0`.
+    (`BlockStationary st` = this for every block.  That the member lists are exact and the positions
+    fresh at a normal return is not part of C01's `Inv`; the C01 driver evaluates it on every model state
+    it visits — `St.invOk` — and it is the hypothesis `hstat` of the theorems here.) -/
+theorem block_posn_is_stationarity (st : St) (b : Nat) (members : Array Nat)
+    (hmem : ∀ x : Nat, x < st.vars.size → (x ∈ members ↔ blk st.vars x = b))
+    (hlt : ∀ x ∈ members, x < st.vars.size) (hnd : members.toList.Nodup)
+    (hB : ((st.blocks[b]!).scale, (st.blocks[b]!).posn) = blockPosn st.vars members)
+    (hs : ∀ i : Nat, (st.vars[i]!).scale ≠ 0)
+    (hA2 : AdaptaVerif.Spec.Qp.listSum (fun i => (st.vars[i]!).weight *
+        ((st.vars[members[0]!]!).scale / (st.vars[i]!).scale) *
+        ((st.vars[members[0]!]!).scale / (st.vars[i]!).scale)) members.toList ≠ 0) :
+    blockSum st.vars (qOf st) b = 0 :=
+  fresh_stationary st b members hmem hlt hnd hB hs hA2
+
+
 /-! ### "returns ⇒ optimum" is false: the premature stop of `IncSolver::solve`
 
 Known finding C02-incsolver-stops-on-unchanged-cost, reproduced by the model on the corpus witness
@@ -107,5 +150,14 @@ def minLmOfBlocks (st : St) : List Rat :=
           p1[2]! == (-7241 : Rat) / 12 && p2[2]! == (-601 : Rat) &&
           (minLmOfBlocks st2).all (fun l => l ≥ LAGRANGIAN_TOLERANCE)
         | _, _ => false)
+
+-- executable form of `BlockStationary` and of quiescence on the optimum reached by the second solve
+-- of the F1 witness: every block's q-sum is 0, every constraint holds, every model multiplier ≥ 0
+#guard (let st := f1Witness.solve.1.solve.1
+        (List.range st.blocks.size).all (fun b =>
+          ((List.range st.vars.size).filter (fun x => (st.vars[x]!).block == b)).foldl
+            (fun acc x => acc + st.dfdv x / (st.vars[x]!).scale) 0 == 0) &&
+        st.cons.all (fun c => decide (0 ≤ st.uval c.r - c.gap - st.uval c.l)) &&
+        (minLmOfBlocks st).all (fun l => l ≥ 0))
 
 end AdaptaVerif.Props.C02Model
